@@ -346,7 +346,8 @@ fn panic_message(e: Box<dyn std::any::Any + Send>) -> String {
 
 fn main() {
     let args: Vec<String> = std::env::args().collect();
-    let verif = "/verif";
+    let verif_owned = std::env::var("VERIF_ROOT").unwrap_or_else(|_| "/verif".to_string());
+    let verif = verif_owned.as_str();
     match args.get(1).map(|s| s.as_str()) {
         Some("worker") => {
             // worker <kind> <seed> <iterations> <schedule-dir>: one scheduler batch in this process
